@@ -2,7 +2,7 @@ import beacon
 import verif
 
 MANIFEST = dict(
-    text="The executable Coq Spec initialize_beacon_state_from_eth1 / is_valid_genesis_state (pyspec transliteration: incremental List[DepositData] roots, process_deposit with proof-of-possession oracle, top-ups, genesis activations, genesis_validators_root) is run, extracted to OCaml, against phase0.GenesisFromEth1 and IsValidGenesisState on every generated deposit list; the resulting state bytes must be identical (or both must refuse). Coq theorems: zrnt's incrementally grown List[Root] of deposit-data roots has the same hash-tree-root as the spec's List[DepositData] for every hash function, limit and list; the validity predicate is exactly the spec's two conditions. Partial: the remaining construction steps are tied by correspondence, not by a separate Impl model.",
+    text="The executable Coq Spec initialize_beacon_state_from_eth1 / is_valid_genesis_state (pyspec transliteration: incremental List[DepositData] roots, process_deposit with proof-of-possession oracle, top-ups, genesis activations, genesis_validators_root) is run, extracted to OCaml, against phase0.GenesisFromEth1 and IsValidGenesisState on every generated deposit list; the resulting state bytes must be identical (or both must refuse). Coq theorems: zrnt's incrementally grown List[Root] of deposit-data roots has the same hash-tree-root as the spec's List[DepositData] for every hash function, limit and list; the validity predicate is exactly the spec's two conditions. An implementation model of GenesisFromEth1 / KickStartState / IsValidGenesisState (Beacon/Impl/Genesis.v: List[Root] deposit-root view, ProcessDeposit through the pubkey-cache model of C16, the SLOTS_PER_EPOCH refusal, the activation loop, the epochs-context load through the C07 Impl models) is proved equal to the Spec (genesis_from_eth1_refines: whenever zrnt returns a state it is the Spec's, and it errors exactly where the Spec asserts, the registry is smaller than SLOTS_PER_EPOCH or no validator is active) and is itself executed against Go on every genesis/kickstart record.",
     note="Trusted: Coq kernel; extraction + OCaml driver; pyspec transliteration; BLS oracle table for deposit signatures; chain generator. Hypothesis of the root theorem: the hash returns 32 bytes. No axioms.",
     technique="Coq proof (SSZ list-root identity) + extracted-Spec vs Go correspondence on generated deposit lists",
     design="4/C13")
@@ -10,7 +10,7 @@ MANIFEST = dict(
 
 def make_check():
     return beacon.BeaconCheck(
-        "C13", lambda r: r["kind"] == "genesis", beacon.judge_plain,
+        "C13", lambda r: r["kind"] in ("genesis", "kickstart"), beacon.judge_plain,
         rule="every `genesis` record: deposit lists with valid/invalid proofs of possession, duplicate pubkeys (top-ups), amounts below/at/above the maximum effective balance, invalid pubkey encodings, several presets; Go's genesis state bytes and validity verdict vs the Spec's. distinct = (chain, record)",
         make_targets=["Properties/C13.vo", "Beacon/Run.vo"], trust=beacon.BEACON_TRUST,
         model_files=["coq/Beacon/Spec/Transition.v", "coq/Beacon/Spec/Block.v", "coq/Beacon/Proofs/GenesisProofs.v", "coq/Properties/C13.v"])
